@@ -47,7 +47,7 @@ func init() {
 		Rule: "same seeded cases with caller misbehaviour after return (cancel ctx, overwrite key buffer with another live key / noise), builder failures and backend write rejections; liveness restated as logical deadlock freedom under the steered executor " +
 			"(no task runnable, no builder active, a Get blocked in the library) and bounded progress in free mode; at quiescence no key lock remains (hook + black-box follow-up Gets that must rebuild), every build result was written under the key it was requested for; " +
 			"distinct_nontrivial = distinct (config, schedule signature) of runs with a background build or a waiter",
-		Required:    []string{"runs.steered", "runs.free", "followups", "mass.runs", "mass.runs_over_10000_keys", "mass.followups", "rearm.cases", "rearm.rejected_gets", "bg.builds", "misbehaviour.mutate", "misbehaviour.cancel", "api.Failover", "api.FailoverOf"},
+		Required:    []string{"runs.steered", "runs.free", "followups", "mass.runs", "mass.runs_over_10000_keys", "mass.followups", "rearm.cases", "rearm.rejected_gets", "bg.builds", "misbehaviour.mutate", "misbehaviour.cancel", "api.Failover", "api.FailoverOf", "mass.background_probes_after_burst"},
 		Assumptions: []string{"'Get always completes' is checked as logical deadlock freedom on the explored schedules (finite runs cannot decide unbounded liveness)"},
 		Timeout:     func(string) time.Duration { return 45 * time.Minute },
 	})
@@ -269,6 +269,26 @@ func c04Mass(b *Batch, idx int, huge bool) {
 	b.R.Count("mass.followups", int64(len(built)))
 	if len(built) != n {
 		fail("later-get-did-not-build", fmt.Sprintf("%d of %d keys were not built again by a later Get on an absent entry", n-len(built), n))
+	}
+	// ... and the background path works again too: stale entries, one Get each, the (idle) instance starts a background build
+	before = len(r.snapshotLog())
+	probe := 12
+	for k := 0; k < probe; k++ {
+		r.prepopulate(rng, k, "stale")
+		r.doGet(2, getSpec{Key: k})
+	}
+	for dl := time.Now().Add(10 * time.Second); time.Now().Before(dl) && len(r.fo.LockedKeys()) > 0; {
+		time.Sleep(200 * time.Microsecond)
+	}
+	bgBuilt := map[int]bool{}
+	for _, e := range r.snapshotLog()[before:] {
+		if e.Kind == "build.enter" {
+			bgBuilt[e.Key] = true
+		}
+	}
+	b.R.Count("mass.background_probes_after_burst", int64(len(bgBuilt)))
+	if len(bgBuilt) != probe {
+		fail("no-background-build-after-burst", fmt.Sprintf("after the burst of %d simultaneous background builds had drained, %d of %d stale keys requested on the idle instance did not get a (background) build", inflight, probe-len(bgBuilt), probe))
 	}
 }
 
